@@ -515,3 +515,65 @@ def selftest(job, seed=0):
     for i in range(n):
         for j in range(n):
             job.validate("sparse.diags", float(got.rows[i][j]), float(real[i, j]), inputs={"i": i, "j": j})
+    # numpy element/aliasing semantics the properties depend on
+    for trial in range(3):
+        n = r.randint(3, 6)
+        xs = sorted(r.uniform(0, 100) for _ in range(n))
+        ys = [r.uniform(-5, 5) for _ in range(n)]
+        qs = [xs[0], xs[-1], xs[1], (xs[0] + xs[1]) / 2, xs[0] - 3, xs[-1] + 7, r.uniform(xs[0], xs[-1])]
+        X, Y = [Q(repr(v)) for v in xs], [Q(repr(v)) for v in ys]
+        for kw in ({}, {"left": -1.25, "right": 9.5}):
+            real = np.interp(qs, xs, ys, **kw)
+            got = run(lambda: npx.interp(SymArray([Q(repr(q)) for q in qs]), SymArray(X), SymArray(Y), **{k: Q(repr(v)) for k, v in kw.items()}))
+            for a, b, q in zip(got.d, real, qs):
+                job.validate("np.interp", float(a), float(b), inputs={"x": xs, "y": ys, "q": q, **kw})
+        real = np.diff(np.array(ys), prepend=0.0)
+        got = run(lambda: npx.diff(SymArray(Y), prepend=Q(0)))
+        for a, b in zip(got.d, real):
+            job.validate("np.diff(prepend)", float(a), float(b), inputs={"y": ys})
+        mask = [r.random() < 0.5 for _ in range(n)]
+        vals = [r.uniform(-9, 9) for _ in range(max(1, sum(mask)))]
+        for name in ("putmask", "place"):
+            ra = np.array(ys)
+            getattr(np, name)(ra, np.array(mask), np.array(vals))
+
+            def f():
+                sa = SymArray(list(Y))
+                getattr(npx, name)(sa, SymArray(list(mask), "bool"), SymArray([Q(repr(v)) for v in vals]))
+                return sa
+            got = run(f)
+            for a, b in zip(got.d, ra):
+                job.validate(f"np.{name}", float(a), float(b), inputs={"y": ys, "mask": mask, "values": vals})
+        ra = np.array(ys)
+        alias = ra
+        ra -= 1.5
+        ra /= 4.0
+        ra *= 3.0
+
+        def g():
+            sa = SymArray(list(Y))
+            al = sa
+            sa -= Q("1.5")
+            sa /= Q(4)
+            sa *= Q(3)
+            return al
+        got = run(g)
+        for a, b in zip(got.d, alias):
+            job.validate("in-place -=, /=, *= through an alias", float(a), float(b), inputs={"y": ys})
+        real = np.clip(np.array(ys), -1.0, 2.0)
+        got = run(lambda: npx.clip(SymArray(Y), Q(-1), Q(2)))
+        for a, b in zip(got.d, real):
+            job.validate("np.clip", float(a), float(b), inputs={"y": ys})
+    try:
+        ia = np.arange(3)
+        ia /= 2
+        raised_real = False
+    except TypeError:
+        raised_real = True
+    try:
+        sa = npx.arange(3)
+        sa /= 2
+        raised_sym = False
+    except TypeError:
+        raised_sym = True
+    job.validate("int array /= raises TypeError", float(raised_sym), float(raised_real))
